@@ -209,11 +209,14 @@ FIXED_POINT_CELLS = [
     "http://a.com/?url=http://a.com/?url=http://a.com/", "http://a&url=%2Fx", "http://a.com&next=/x", "a.com?url=/", "http://a.com/?url=/", "http://a.com/?url=//b.org/x", "http://a.com/?url=https://", "http://a.com/?url=http://",
     "https://b-org.cdn.ampproject.org/c/s/b.org/x", "https://b-org.cdn.ampproject.org/c/s/", "https://b-org.cdn.ampproject.org/c/s/b.org/r?url=http%3A%2F%2Fc.net", "https://www.youtube.com/redirect?q=b.org%2Fx&v=1", "http://a.com/url?q=http://b.org/x", "http://a.com/?q=http://b.org/x",
     "http://a.com/?%75rl=http%3A%2F%2Fb.org", "http://a.com/?u\x00rl=http://b.org", "http://a.com/?redirect_to=/a?redirect_to=/b", "", "url=/x", "?url=/x", "http://a.com/?url=%252Fx", "http://[bad/?url=%2Fx", "http://[bad/?url=http%3A%2F%2Fb.org", "http://a.com:x/?url=%2Fy",
+    "http://a.com?u=%2Fx", "http://a.com#x/?u=%2Fy", "http://a.com?page=2#&url=/x",
 ]
+# a relative target is joined to the url the way a browser resolves a reference (RFC 3986 5.2): it replaces path, query and fragment
+JOINED_TARGETS = {"http://a.com/r?url=%2Fx": "http://a.com/x", "http://a.com?u=%2Fx": "http://a.com/x", "http://a.com#x/?u=%2Fy": "http://a.com/y", "http://a.com?page=2#&url=/x": "http://a.com/x", "http://a.com/r?u=/x&v=1": "http://a.com/x"}
 
 
 def fixed_point_table(ctx, rule):
-    ctx.rule(rule, "model table (fixed point): infer_redirection, interpreted on one url per class {no key, absolute / nested / relative / protocol-relative / empty target, a key in host position, self-embedding, AMP / Marfeel cache with and without tail, youtube redirect, the 'q' key with and without its route, escaped or control-split key, double-escaped value, unparseable base (unbalanced bracket, bad port), degenerate strings}: the recursive result is unchanged by a further application, equals what repeated non-recursive application converges to within 8 steps, and is the url itself or shorter")
+    ctx.rule(rule, "model table (fixed point): infer_redirection, interpreted on one url per class {no key, absolute / nested / relative / protocol-relative / empty target, a key in host position, self-embedding, AMP / Marfeel cache with and without tail, youtube redirect, the 'q' key with and without its route, escaped or control-split key, double-escaped value, unparseable base (unbalanced bracket, bad port), degenerate strings}: the recursive result is unchanged by a further application, is (for a relative target) the url itself or the target resolved against it as a reference, equals what repeated non-recursive application converges to within 8 steps, and is the url itself or shorter")
     from ..microeval import Raised
     repo = ctx.repo
     mod = repo.mod("infer_redirection")
@@ -248,5 +251,7 @@ def fixed_point_table(ctx, rule):
             problems.append("step-by-step application converges to %r" % (step,))
         if isinstance(r, str) and r != u and len(r) >= len(u):
             problems.append("the result is not shorter than the url it is supposed to be embedded in")
+        if u in JOINED_TARGETS and r not in (u, JOINED_TARGETS[u]):
+            problems.append("the relative target joined to the url is %r" % JOINED_TARGETS[u])
         ctx.ob(rule, "fixed-point/%r" % u, not problems, "infer_redirection(%r) gives %r: %s" % (u, r, "; ".join(problems)), site, witness=u, sample="%r -> %r" % (u, r) if "ampproject" in u or "a&url" in u else None)
     ctx.require_instances(rule, n, len(FIXED_POINT_CELLS) - 3, "fixed-point cells")
